@@ -188,6 +188,10 @@ func parseContractFile(path, pkgPath, pkgName string) ([]*Decl, error) {
 			}
 			cur.Body = rest
 			curClause = &Clause{Kind: "specbody"}
+		case "defines":
+			// defines UF(args) == EXPR: names the (deterministic) result of this function by an uninterpreted function;
+			// assumed by callers, nothing to prove (the engine only accepts functions it executes as pure functions of their inputs)
+			newClause("defines", rest)
 		case "derived":
 			// derived EXPR: a consequence of requires + ensures (proved from them alone), assumed by callers like an ensures
 			newClause("derived", rest)
